@@ -17,8 +17,9 @@ var _ Method = (*GuessAndCheck)(nil)
 type GuessAndCheck struct {
 	Rander distmv.Rander
 
-	bestF float64
-	bestX []float64
+	bestF   float64
+	bestX   []float64
+	hasBest bool
 }
 
 func (*GuessAndCheck) Uses(has Available) (uses Available, err error) {
@@ -34,6 +35,7 @@ func (g *GuessAndCheck) Init(dim, tasks int) int {
 	}
 	g.bestF = math.Inf(1)
 	g.bestX = resize(g.bestX, dim)
+	g.hasBest = false
 	return tasks
 }
 
@@ -45,9 +47,10 @@ func (g *GuessAndCheck) sendNewLoc(operation chan<- Task, task Task) {
 
 func (g *GuessAndCheck) updateMajor(operation chan<- Task, task Task) {
 	// Update the best value seen so far, and send a MajorIteration.
-	if task.F < g.bestF {
+	if !g.hasBest || task.F < g.bestF || math.IsNaN(g.bestF) {
 		g.bestF = task.F
 		copy(g.bestX, task.X)
+		g.hasBest = true
 	} else {
 		task.F = g.bestF
 		copy(task.X, g.bestX)
